@@ -266,7 +266,8 @@ def evolve_2site(
 ):
     # evolve snode and parent
     ms2 = ttns.merge_with_parent(snode)
-    hop, _ = hop_expr2(snode, ttns, ttno, ttne)
+    # the diagonal is not needed and is not defined for operators that do not act on the auxiliary space
+    hop = hop_expr2(snode, ttns, ttno, ttne, return_hdiag=False)
     ms2_t, j = expm_krylov(lambda y: hop(y.reshape(ms2.shape)).ravel(), coeff * tau, ms2.ravel())
     return ms2_t, j
 
